@@ -122,6 +122,27 @@ def draw_arg(draw, kind, z):
         if draw(st.integers(0, 2)) == 0:
             return None
         return draw_arg(draw, "samples", z)
+    if kind in ("indexes2", "indexes3", "indexes4"):
+        k = int(kind[-1])
+        m = draw(st.sampled_from([1, 1, 2, 3]))
+        tups = [[draw(st.integers(0, 4)) for _ in range(k)] for _ in range(m)]
+        if draw(st.integers(0, 2)) == 0:  # one bad entry in a random slot of a random tuple
+            tups[draw(st.integers(0, m - 1))][draw(st.integers(0, k - 1))] = draw(
+                st.sampled_from([-1, -2, 5, 6, 7, I31, -(2**31), 2**31]))
+        if m == 1 and draw(st.booleans()):
+            return tups[0]
+        return tups
+    if kind == "edge_perm":
+        perm = list(draw(st.permutations(list(range(z.e))))) if draw(st.integers(0, 3)) == 0 else list(range(z.e))
+        if perm and draw(st.integers(0, 1)) == 0:
+            perm[draw(st.integers(0, len(perm) - 1))] = draw(st.sampled_from(
+                [-1, -2, z.e, z.e + 1, 2**30, I31, -(2**31), perm[0]]))
+        return perm
+    if kind == "sample_sets5":
+        k = draw(st.integers(3, 5))
+        if z.samples:
+            return [[draw(st.sampled_from(z.samples)) for _ in range(draw(st.integers(1, 2)))] for _ in range(k)]
+        return [[_ids(draw, n)] for _ in range(k)]
     if kind == "sample_sets":
         k = draw(st.integers(0, 3))
         if z.samples and draw(st.integers(0, 99)) < 60:
@@ -349,6 +370,16 @@ def _ts_calls():
         reg("ts." + nm, ["sample_sets", "indexes", "windows", "mode", "bool"],
             (lambda nm: lambda S, ss, ix, w, m, sn: getattr(S.ts, nm)(ss, indexes=ix, windows=w, mode=m, span_normalise=sn))(nm))
     reg("ts.Y1", ["sample_sets", "windows", "mode"], lambda S, ss, w, m: S.ts.Y1(ss, windows=w, mode=m))
+    # k-way statistics with enough sample sets to get past the "at least k sets" validation and index
+    # tuples of the right arity with at most one bad entry in a random slot
+    for nm, ar in (("divergence", 2), ("Y2", 2), ("f2", 2), ("Fst", 2), ("genetic_relatedness", 2), ("Y3", 3),
+                   ("f3", 3), ("f4", 4)):
+        reg(f"ts.{nm}/k", ["sample_sets5", f"indexes{ar}", "windows", "mode"],
+            (lambda nm: lambda S, ss, ix, w, m: getattr(S.ts, nm)(ss, indexes=ix, windows=w, mode=m))(nm))
+    reg("ts.pair_coalescence_counts/k", ["sample_sets5", "indexes2", "windows"], lambda S, ss, ix, w:
+        S.ts.pair_coalescence_counts(ss, indexes=ix if ix and isinstance(ix[0], list) else [ix], windows=w))
+    reg("ts.genetic_relatedness_weighted/k", ["weights", "indexes2", "windows", "mode"], lambda S, W, ix, w, m:
+        S.ts.genetic_relatedness_weighted(np.array(W, dtype=float).reshape(len(W), -1), indexes=ix, windows=w, mode=m))
     reg("ts.allele_frequency_spectrum", ["sample_sets", "windows", "mode", "bool", "bool"], lambda S, ss, w, m, sn, po:
         S.ts.allele_frequency_spectrum(ss, windows=w, mode=m, span_normalise=sn, polarised=po))
     reg("ts.general_stat", ["weights", "windows", "mode", "bool", "bool"], lambda S, W, w, m, po, sn: S.ts.general_stat(
@@ -449,6 +480,13 @@ def _tables_calls():
         S.t.indexes = tskit.TableCollectionIndexes(np.array(a, dtype=np.int32), np.array(b, dtype=np.int32))
 
     reg("t.set_indexes", ["nodes", "nodes"], set_indexes)
+
+    def set_indexes_then_use(S, a, b, which):
+        set_indexes(S, a, b)
+        [S.t.tree_sequence, S.t.compute_mutation_parents, S.t.compute_mutation_times,
+         lambda: S.t.simplify()][abs(which) % 4]()
+
+    reg("t.set_indexes_then_use", ["edge_perm", "edge_perm", "small"], set_indexes_then_use)
     # generic table operations
     reg("table.getitem", ["small", "node"], lambda S, k, i: tab(S, k)[i])
     reg("table.getslice", ["small", "small", "small"], lambda S, k, a, b: len(tab(S, k)[a:b]))
@@ -813,6 +851,15 @@ def boundary_points(tskit, ts, t):
         ("union(node_mapping=[n..])", lambda: ts.union(ts, [n] * n) if n else (_ for _ in ()).throw(ValueError("empty"))),
         ("split_edges(population=P)", lambda: ts.split_edges(0.5, population=P)),
         ("sort(edge_start=E+1)", lambda: t.copy().sort(edge_start=E + 1)),
+        ("indexes(removal has 2^30).tree_sequence", lambda: _with_index(tskit, t, E, None, 2**30).tree_sequence()),
+        ("indexes(insertion has 2^30).tree_sequence", lambda: _with_index(tskit, t, E, 2**30, None).tree_sequence()),
+        ("indexes(removal has 2^30).compute_mutation_parents", lambda: _with_index(tskit, t, E, None, 2**30).compute_mutation_parents()),
+        ("f4(indexes=[(0,1,2,4)])", lambda: ts.f4([smp[:1] or [0]] * 4, indexes=[(0, 1, 2, 4)])),
+        ("f4(indexes=[(0,1,2,2^31-1)])", lambda: ts.f4([smp[:1] or [0]] * 4, indexes=[(0, 1, 2, 2**31 - 1)])),
+        ("f3(indexes=[(0,1,3)])", lambda: ts.f3([smp[:1] or [0]] * 3, indexes=[(0, 1, 3)])),
+        ("f2(indexes=[(0,2)])", lambda: ts.f2([smp[:1] or [0]] * 2, indexes=[(0, 2)])),
+        ("Y3(indexes=[(0,1,-1)])", lambda: ts.Y3([smp[:1] or [0]] * 3, indexes=[(0, 1, -1)])),
+        ("divergence(indexes=[(0,2^31-1)])", lambda: ts.divergence([smp[:1] or [0]] * 2, indexes=[(0, 2**31 - 1)])),
         # negative identifiers in id lists are out of range like any other
         ("simplify(samples=[-1])", lambda: ts.simplify([-1])),
         ("subset([-1])", lambda: ts.subset([-1])),
@@ -840,6 +887,22 @@ def boundary_points(tskit, ts, t):
         ("nodes.truncate(n+1)", lambda: t.copy().nodes.truncate(n + 1)),
     ]
     return pts
+
+
+def _with_index(tskit, t, E, bad_ins, bad_rem):
+    import numpy as np
+
+    t2 = t.copy()
+    if E == 0:
+        raise ValueError("no edges")
+    ins = t2.indexes.edge_insertion_order.copy()
+    rem = t2.indexes.edge_removal_order.copy()
+    if bad_ins is not None:
+        ins[-1] = bad_ins
+    if bad_rem is not None:
+        rem[-1] = bad_rem
+    t2.indexes = tskit.TableCollectionIndexes(ins.astype(np.int32), rem.astype(np.int32))
+    return t2
 
 
 @st.composite
